@@ -139,6 +139,8 @@ def gen_spec(rng, n_zones=None, allow_fed=True, ext=None, maxtime=None, grid=Tru
                 spec['gifts'].append({'src': [a[1], a[2]], 'dst': [c[1], c[2]], 'amount': None,
                                       'same_var_as': len(spec['gifts']) - 1,
                                       'inc_src': spec['gifts'][-1]['inc_src'], 'inc_dst': rng.random() < 0.5})
+    for i, gf in enumerate(spec['gifts']):
+        gf['id'] = i          # stable variable name GIFT<id>, also when a sub-spec keeps only some gifts
     if ext and cross and nz > 1:
         # cross-zone imports: supplier country's firm must be multi-output
         cands = [(z['cur'], c) for z in zones for c in z['countries'] if c['role'] != 'central']
@@ -366,8 +368,10 @@ def _build(spec, model=None, holder=None, order_seed=None, codes=None, ckey_map=
         dst = sector_for(b, gf['dst'])
         if gf.get('same_var_as') is not None:
             var = 'GIFT%d' % gf['same_var_as']
+            if var not in src.EquationBlock:
+                src.AddVariable(var, 'A gift', '2.0')
         else:
-            var = 'GIFT%d' % i
+            var = 'GIFT%d' % gf.get('id', i)
             src.AddVariable(var, 'A gift', gf['amount'])
         mod.RegisterCashFlow(src, dst, var, is_income_source=gf['inc_src'], is_income_dest=gf['inc_dst'])
         b.flows.append({'kind': 'gift', 'src': src, 'dst': dst, 'var': var, 'spec': gf})
